@@ -48,6 +48,8 @@ def record_run(kind, cap, targets, p, n, seed, pass_y_keyword=False):
     """Seeded run of the real class; one event per update."""
     random.seed(seed)
     np.random.seed(seed % 2 ** 32)
+    tape = Tape(mode="log")
+    tape.__enter__()
     st = make(kind, cap, targets, p)
     # a second live object of the same class (other capacity), fed other items in lockstep: objects must not share state
     comp = make(kind, 1 if kind == "sequence" else cap + 2, not targets, p) if seed % 2 else None
@@ -57,6 +59,7 @@ def record_run(kind, cap, targets, p, n, seed, pass_y_keyword=False):
             comp.update({"id": -t, "v": -1.0}, "decoy%d" % t)
         bx, by = project(st)
         x, y = item(t)
+        d0 = len(tape.log)
         if pass_y_keyword:
             st.update(x=x, y=y)
         elif targets or t % 2:
@@ -64,7 +67,9 @@ def record_run(kind, cap, targets, p, n, seed, pass_y_keyword=False):
         else:
             st.update(x)           # y is optional when targets are not stored
         ax, ay = project(st)
-        ev.append({"t": t, "before": {"sx": bx, "sy": by}, "after": {"sx": ax, "sy": ay}, "len": len(st)})
+        ev.append({"t": t, "before": {"sx": bx, "sy": by}, "after": {"sx": ax, "sy": ay}, "len": len(st),
+                   "draws": [[d["kind"], d["range"] or 0, d["v"] if isinstance(d["v"], int) else 0] for d in tape.log[d0:]]})
+    tape.__exit__(None, None, None)
     return {"kind": kind, "cap": cap, "targets": targets, "p": -1 if p is None else p, "ev": ev, "seed": seed}
 
 
